@@ -241,6 +241,10 @@ def run(ctx, col: Collector):
                         node=rb.node, file=rb.file)
             elif info['subscripted'] and info['lookups'] and not info['other_sources']:
                 col.ok('C05-identity', cons, f'reference endpoint col{side}: elements of the table returned by locate_table', node=rb.node, file=rb.file)
+            elif info['comps'] and info['lookups'] and not info['other_sources'] and all(
+                    isinstance(c.generators[0].iter, ast.Attribute) and c.generators[0].iter.attr == 'columns' and norm(c.elt) == norm(c.generators[0].target)
+                    for c in info['comps']):
+                col.ok('C05-identity', cons, f'reference endpoint col{side}: elements of the column list of the table returned by locate_table', node=rb.node, file=rb.file)
             elif info['comps'] and not info['subscripted']:
                 tags = [origin(c.elt, rfn) for c in info['comps']]
                 col.unk('C05-identity', cons, f'reference endpoint col{side}: cannot establish that `{norm(info["comps"][0].elt)[:50]}` ({tags[0][0]}) is the table\'s own Column', node=rb.node, file=rb.file)
